@@ -22,6 +22,18 @@ def run_bin(name, args, timeout=1800):
     return p
 
 
+def _interleave(events, ncanon):
+    """alternate canonical-form and raw-rabin events so that the self-test finds both kinds early"""
+    a, b = events[:ncanon], events[ncanon:]
+    out = []
+    for i in range(max(len(a), len(b))):
+        if i < len(a):
+            out.append(a[i])
+        if i < len(b):
+            out.append(b[i])
+    return out
+
+
 def lines_of(path):
     return [l for l in Path(path).read_text().splitlines() if l.strip()]
 
@@ -57,6 +69,133 @@ def check_edit_coverage(scns):
     if missing:
         raise vf.ToolError(f"edit actions never exercised: {missing}")
     return seen
+
+
+# ------------------------------------------------------------------------------------------------
+# binding self-test: a recorded field is corrupted; the trace specification must reject exactly there
+# ------------------------------------------------------------------------------------------------
+def _flip(b):
+    b = list(b)
+    if b:
+        b[len(b) // 2] ^= 1
+    else:
+        b = [1]
+    return b
+
+
+def _swap_first_two_keys(tree):
+    """first object node with >= 2 keys (depth first): swap its first two keys"""
+    if tree.get("j") == "obj":
+        if len(tree["kv"]) >= 2:
+            tree["kv"][0], tree["kv"][1] = tree["kv"][1], tree["kv"][0]
+            return True
+        return any(_swap_first_two_keys(v) for _, v in tree["kv"])
+    if tree.get("j") == "arr":
+        return any(_swap_first_two_keys(x) for x in tree["items"])
+    return False
+
+
+def selftest(work, rep, module, cfg, events, verdicts, corruptions, want=6):
+    """corruptions: list of (name, expected clause, function(event dict) -> bool applied)."""
+    dirty = {v["id"] for v in verdicts if v.get("fail") or v.get("known")}
+    clean = [json.loads(l) for l in events if json.loads(l)["id"] not in dirty]
+    cases, expect = [], []
+    for k, (name, clause, fn) in enumerate(corruptions * want):
+        if len(cases) >= want * len(corruptions) or k >= len(clean):
+            break
+        e = json.loads(json.dumps(clean[k]))
+        if fn(e):
+            e["id"] = len(cases)
+            cases.append(json.dumps(e))
+            expect.append((name, clause))
+    if len(cases) < len(corruptions):
+        raise vf.ToolError("self-test could not build its corrupted events")
+    vs, st, tr = vf.judge_events(work, module, cfg, cases, chunk=len(cases) + 1, jobs=1, timeout=900)
+    by_id = {v["id"]: v for v in vs}
+    missed = [(i, expect[i]) for i in range(len(cases)) if expect[i][1] not in by_id.get(i, {}).get("fail", [])]
+    if missed:
+        raise vf.ToolError(f"binding self-test: corrupted events were not rejected: {missed[:4]}")
+    rep.cov["selftest"] = {"corrupted_events_rejected": len(cases), "kinds": sorted({n for n, _ in expect})}
+    vf.log(f"self-test: {len(cases)} corrupted events rejected")
+
+
+def _c12_corruptions():
+    def rabin(e):
+        if e.get("ev") != "canon" or not e["parse_ok"]:
+            return False
+        e["rabin"] = _flip(e["rabin"]); return True
+
+    def order(e):
+        return e.get("ev") == "canon" and e["parse_ok"] and _swap_first_two_keys(e["ctree"])
+
+    def spy(e):
+        if e.get("ev") != "canon" or not e["parse_ok"]:
+            return False
+        e["spy"] = e["spy"][:-1]; return True
+
+    def md5(e):
+        if e.get("ev") != "canon" or not e["parse_ok"]:
+            return False
+        e["md5"] = _flip(e["md5"]); return True
+
+    def p2(e):
+        if e.get("ev") != "canon" or not e["parse_ok"]:
+            return False
+        e["p2"]["sha256"] = _flip(e["p2"]["sha256"]); return True
+
+    def compact(e):
+        if e.get("ev") != "canon" or not e["parse_ok"]:
+            return False
+        e["compact"] = False; return True
+
+    def raw(e):
+        if e.get("ev") != "rabin":
+            return False
+        e["split"] = _flip(e["split"]); return True
+
+    return [("rabin-byte", "C12:rabin", rabin), ("canonical-key-order", "C12:canonical-form", order),
+            ("spy-truncated", "C12:digest-input", spy), ("md5-byte", "C12:md5", md5),
+            ("second-process", "C12:differs-between-processes", p2), ("compact-flag", "C12:whitespace-or-escapes", compact),
+            ("raw-rabin-split", "C12:rabin-split-update", raw)]
+
+
+def _c10_corruptions():
+    def ok(e):
+        return e["parse_ok"] and e["parse2_ok"] and e["hdr_ok"]
+
+    def name(e):
+        if not ok(e) or "name" not in e["proj2"]:
+            return False
+        e["proj2"]["name"] = _flip(e["proj2"]["name"]); return True
+
+    def dup(e):
+        t = e["tree2"]
+        if not ok(e) or t.get("j") != "obj" or not t["kv"]:
+            return False
+        t["kv"].append(json.loads(json.dumps(t["kv"][0]))); return True
+
+    def text3(e):
+        if not ok(e):
+            return False
+        e["text3_same"] = False; return True
+
+    def hdr(e):
+        if not ok(e) or "name" not in e["proj_hdr"]:
+            return False
+        e["proj_hdr"]["name"] = _flip(e["proj_hdr"]["name"]); return True
+
+    def dropkey(e):
+        t = e["tree2"]
+        if not ok(e) or t.get("j") != "obj" or len(t["kv"]) < 4:
+            return False
+        idx = [i for i, (k, _) in enumerate(t["kv"]) if k not in ("type", "name", "namespace", "fields", "symbols", "size", "items", "values")]
+        if not idx:
+            return False
+        del t["kv"][idx[0]]; return True
+
+    return [("reparsed-name", "C10:reparsed-schema-differs", name), ("duplicate-key", "C10:duplicate-keys", dup),
+            ("text3", "C10:text-not-stable", text3), ("header-name", "C10:header-schema-differs", hdr),
+            ("written-json-lost-key", "C10:json-denotes-other-schema", dropkey)]
 
 
 # ------------------------------------------------------------------------------------------------
@@ -99,8 +238,8 @@ def run_c12(prop, tier, seed, replay=None):
     else:
         if tier == "quick":
             one = mc_scenarios(work, rep, "MC_SchemaJson_quick.cfg")
-            scns = sample_evenly(one, 700)
-            nfam, depth, nhash = 100, 3, 800
+            scns = sample_evenly(one, 560)
+            nfam, depth, nhash = 80, 3, 600
         else:
             one = mc_scenarios(work, rep, "MC_SchemaJson_quick.cfg")
             two = mc_scenarios(work, rep, "MC_SchemaJson_thorough.cfg", timeout=2400)
@@ -150,6 +289,8 @@ def run_c12(prop, tier, seed, replay=None):
         return {"kind": "rabin", "event": ev}
 
     rep.classify(verdicts, replay_of)
+    if not replay:
+        selftest(work, rep, "Trace_Canon.tla", "Trace_Canon.cfg", _interleave(events, ncanon), verdicts, _c12_corruptions(), want=2 if tier == "quick" else 6)
     rep.cov["distinct_nontrivial"] = vf.distinct_hashes(
         [{"b": p["base"], "t": p["t"]} for p in parsed if p["t"].get("j") != "str"]) + vf.distinct_hashes(
         [json.loads(l)["bytes"] for l in events[ncanon:] if json.loads(l)["bytes"]])
@@ -206,8 +347,8 @@ def run_c10(prop, tier, seed, replay=None):
     else:
         one = mc_scenarios(work, rep, "MC_SchemaJson_quick.cfg")
         if tier == "quick":
-            scns = sample_evenly(one, 800)
-            nfam, depth = 150, 3
+            scns = sample_evenly(one, 700)
+            nfam, depth = 120, 3
         else:
             two = mc_scenarios(work, rep, "MC_SchemaJson_thorough.cfg", timeout=2400)
             first = set(one)
@@ -244,6 +385,8 @@ def run_c10(prop, tier, seed, replay=None):
         return {"kind": "srt", "scenario": parsed[i], "event": {k: ev[k] for k in ev if k not in ("t",)}}
 
     rep.classify(verdicts, replay_of)
+    if not replay:
+        selftest(work, rep, "Trace_SchemaRoundTrip.tla", "Trace_SchemaRoundTrip.cfg", events, verdicts, _c10_corruptions(), want=2 if tier == "quick" else 6)
     rep.cov["distinct_nontrivial"] = vf.distinct_hashes([p["t"] for p in parsed if p["t"].get("j") != "str"])
     for p in parsed[:1] + parsed[len(parsed) // 2: len(parsed) // 2 + 1] + parsed[-1:]:
         rep.sample({"edits": p.get("edits", []), "text": tree_text(p["t"])[:400]})
